@@ -773,6 +773,14 @@ class ModelRunner(object):
                     # (restores sys.stdout/stderr and the logging handlers).
                     self.stop_capture()
                     self.teardown_capture()
+                    # -- ENSURE: Cleanups of the scopes that the interrupt cut short
+                    # are performed (scenario, rule, feature; innermost first).
+                    # pylint: disable=protected-access, broad-except
+                    while len(context._stack) > 1:
+                        try:
+                            context._pop()
+                        except Exception:
+                            pass    # -- ALREADY REPORTED: As cleanup-error.
 
             # -- ALWAYS: Report run/not-run feature to reporters.
             # REQUIRED-FOR: Summary to keep track of untested features.
